@@ -9,8 +9,12 @@ LAYOUTS = ('none', 'before', 'between', 'after', 'everywhere')
 STORY_NAMES = ['A', 'B', 'C', 'D', 'E', 'F']
 
 
-def run_case(s, ro_txt, kind, kw, mid=2, pretty=False, ctx=None):
+def run_case(s, ro_txt, kind, kw, mid=2, pretty=False, ctx=None, noise_rng=None):
     msg = B.msg_doc(kind, mid, pretty=pretty, **kw)
+    if noise_rng is not None:
+        # hostile-ID grids: comments inside ID texts, in the message and in the running order
+        msg = gen.split_ids(noise_rng, msg)
+        ro_txt = gen.split_ids(noise_rng, ro_txt, p=0.3)
     ro = s.load(ro_txt)
     return s.step(ro, msg, ctx)
 
@@ -32,7 +36,8 @@ def story_grid(s, nmax, layouts=LAYOUTS, pretties=(False, True), kmax=3, full=Tr
                         idx += 1
                         if not s.mine(idx):
                             continue
-                        run_case(s, ro_txt, kind, kw, pretty=pretty)
+                        run_case(s, ro_txt, kind, kw, pretty=pretty,
+                                 noise_rng=s.rng('split', idx) if (names is not STORY_NAMES and idx % 2) else None)
     s.hist['grid_cases_total'] = idx
 
 
@@ -58,7 +63,8 @@ def item_grid(s, nmax, pretties=(False, True), kmax=3, full=True, inters=(False,
                         idx += 1
                         if not s.mine(idx):
                             continue
-                        run_case(s, ro_txt, kind, kw, pretty=pretty)
+                        run_case(s, ro_txt, kind, kw, pretty=pretty,
+                                 noise_rng=s.rng('split', idx) if (item_names and idx % 2) else None)
     s.hist['grid_cases_total'] = idx
 
 
@@ -572,3 +578,110 @@ def large_cases(s, n_cases, level='both'):
             if ev is not None and ev.get('post_xml'):
                 cur = ev['post_xml']
     s.hist['large_cases_total'] = n_cases
+
+
+# --------------------------------------------------------------------------
+# huge running orders: 300 stories / 300 items, operations (self-referential
+# ones included) aimed at elements whose child index is above 256
+
+def huge_cases(s, n_cases=2):
+    for i in range(n_cases):
+        if not s.mine(i):
+            continue
+        rng = s.rng('huge', i)
+        n = 300
+        S = ['H%d' % k for k in range(n)]
+        stories = [gen.simple_story(nm, 1, item_prefix=nm + '.') for nm in S]
+        big = gen.simple_story('BIG', 300, item_prefix='b')
+        stories.append(big)
+        ro_txt = B.ro_doc('RO', 1, stories, pretty=False)
+        hi = S[260:]
+        I = ['b%d' % k for k in range(300)]
+        hiI = I[260:]
+        cases = []
+        a, b2, c = rng.sample(hi, 3)
+        cases += [('EAStorySwap', dict(ids=[a, a])), ('EAStorySwap', dict(ids=[a, b2])),
+                  ('EAStorySwap', dict(ids=[b2, a])),
+                  ('roStoryMove', dict(ids=[a], target=a)), ('roStoryMove', dict(ids=[a], target=b2)),
+                  ('roStoryMove', dict(ids=[S[3]], target=c)), ('roStoryMove', dict(ids=[c], target=S[2])),
+                  ('EAStoryMove', dict(ids=[a, b2], target=b2)), ('EAStoryMove', dict(ids=[a, b2, c], target=S[1])),
+                  ('EAStoryMove', dict(ids=[S[0], c], target=B.BLANK)),
+                  ('EAStoryDelete', dict(ids=[a, 'nope', c])), ('roStoryDelete', dict(ids=[c, a])),
+                  ('roStoryInsert', dict(target=a, carried=[gen.simple_story('N1', 1), gen.simple_story('N2', 1)])),
+                  ('roStoryReplace', dict(target=c, carried=[gen.simple_story('N3', 1)])),
+                  ('roStorySend', dict(story_ref=b2, body=[B.E('p', 'x')], fields=['BODY']))]
+        x, y, z = rng.sample(hiI, 3)
+        cases += [('EAItemSwap', dict(story_ref='BIG', ids=[x, x])), ('EAItemSwap', dict(story_ref='BIG', ids=[y, x])),
+                  ('roItemMoveMultiple', dict(story_ref='BIG', ids=[x, y], target=y)),
+                  ('roItemMoveMultiple', dict(story_ref='BIG', ids=[x, I[2]], target=z)),
+                  ('EAItemMove', dict(story_ref='BIG', ids=[z, x], target=I[5])),
+                  ('EAItemMove', dict(story_ref='BIG', ids=[x], target=x)),
+                  ('roItemDelete', dict(story_ref='BIG', ids=[z, 'nope', x])),
+                  ('EAItemDelete', dict(story_ref='BIG', ids=[x, y])),
+                  ('roItemInsert', dict(story_ref='BIG', target=x, carried=[B.item('n1', 'x'), B.item('n2', 'y')])),
+                  ('roItemReplace', dict(story_ref='BIG', target=y, carried=[B.item('n3', 'x')]))]
+        for kind, kw in cases:
+            run_case(s, ro_txt, kind, kw, ctx={'huge': i})
+        s.hist['huge_transitions'] += len(cases)
+
+
+# --------------------------------------------------------------------------
+# through the command line and back: `mosromgr merge -f ... -o FILE` into a path
+# that already holds an older, longer result; the file is then read back with
+# the library.  Returns (rc, reread|None, library_text|None).
+
+def cli_roundtrip(s, docs, tmpdir, tag, non_strict=True, incomplete=True):
+    import contextlib
+    import io
+    import os
+    import warnings as W
+    from .. import events as EV
+    import mosromgr.cli as cli
+    import mosromgr.moscollection as mcmod
+    paths = []
+    for k, d in enumerate(docs):
+        p = os.path.join(tmpdir, '%s-in%02d.mos.xml' % (tag, k))
+        with open(p, 'wb') as f:
+            f.write(d.encode('utf-8'))
+        paths.append(p)
+    out = os.path.join(tmpdir, '%s-out.xml' % tag)
+    with open(out, 'wb') as f:
+        f.write(('<mos>' + '<old>previous, longer result</old>' * 3000 + '</mos>\n').encode())
+    lib = None
+    EV.STATE['quiet'] = EV.STATE.get('quiet', 0) + 1
+    try:
+        with W.catch_warnings():
+            W.simplefilter('ignore')
+            try:
+                mc = mcmod.MosCollection.from_files(paths, allow_incomplete=incomplete)
+                mc.merge(strict=not non_strict)
+                lib = mc
+            except Exception:
+                lib = None
+    finally:
+        EV.STATE['quiet'] -= 1
+    EV.drain()
+    argv = ['merge', '-f'] + paths + ['-o', out] + (['-n'] if non_strict else []) + (['-i'] if incomplete else [])
+    o, e = io.StringIO(), io.StringIO()
+    with contextlib.redirect_stdout(o), contextlib.redirect_stderr(e):
+        try:
+            rc = cli.main(argv)
+        except SystemExit as ex:
+            rc = ex.code
+    EV.drain()
+    reread = None
+    EV.STATE['quiet'] = EV.STATE.get('quiet', 0) + 1
+    try:
+        try:
+            reread = s.mt.MosFile.from_file(out)
+        except Exception as ex:
+            reread = ex
+    finally:
+        EV.STATE['quiet'] -= 1
+    for p in paths + [out]:
+        try:
+            os.unlink(p)
+        except OSError:
+            pass
+    s.hist['cli_roundtrips'] += 1
+    return rc, reread, lib, argv
